@@ -54,7 +54,10 @@ func init() {
 			}
 			mc := &RuleResult{Rule: "MARKCOUNT", Doc: "where cells of a scratch slice are marked with a sentinel and counted at several places, each place knows the cell is not marked yet (the count equals the number of marks)", MinInst: 1}
 			ruleMarkCount(c, mc, "sortints")
-			return []*RuleResult{pure, ro, fr, ruleSwap(c, "SWAP", swapDoc, c17Swap, 7), mc}
+			sc := &RuleResult{Rule: "SUBCMP", Doc: "no two elements are ordered by the sign of their difference (it overflows)", MinInst: 1}
+			ruleSubCmp(c, sc, "sortints")
+			ruleSubCmp(c, sc, "ints")
+			return []*RuleResult{pure, ro, fr, ruleSwap(c, "SWAP", swapDoc, c17Swap, 7), mc, sc}
 		},
 		controls: func(ctl *Ctx) []*RuleResult {
 			pure := &RuleResult{Rule: "PURE"}
@@ -69,7 +72,9 @@ func init() {
 			freshResult(ctl, fr, ctl.Fn("effctl.GoodPure"), 0, nil, nil, "is a new slice")
 			mc := &RuleResult{Rule: "MARKCOUNT"}
 			ruleMarkCount(ctl, mc, "markctl")
-			return append([]*RuleResult{pure, ro, fr, mc}, swapControls(ctl)...)
+			sc := &RuleResult{Rule: "SUBCMP"}
+			ruleSubCmp(ctl, sc, "markctl")
+			return append([]*RuleResult{pure, ro, fr, mc, sc}, swapControls(ctl)...)
 		},
 	})
 	register(&propDef{
@@ -337,4 +342,68 @@ func ruleMarkCount(c *Ctx, r *RuleResult, pkgRel string) {
 		}
 	}
 	r.inst("%d functions of %s scanned for mark-and-count sites", nfn, pkgRel)
+}
+
+// ruleSubCmp: ordering two set elements by the sign of their difference is wrong as soon as the
+// difference overflows (elements of opposite sign more than MaxInt apart). A subtraction of two
+// non-constant integers whose result is only ever compared with zero is reported.
+func ruleSubCmp(c *Ctx, r *RuleResult, pkgRel string) {
+	pkg := c.Pkg(pkgRel)
+	n := 0
+	for _, fn := range c.Funcs {
+		if fn.Synthetic != "" || fn.Blocks == nil || fnPkg(fn) == nil || fnPkg(fn).Pkg != pkg.Types {
+			continue
+		}
+		n++
+		for _, b := range fn.Blocks {
+			for _, in := range b.Instrs {
+				bo, ok := in.(*ssa.BinOp)
+				if !ok || bo.Op != token.SUB || !isInt(bo.Type()) || isUnsigned(bo.Type()) {
+					continue
+				}
+				if _, isK := constInt(strip(bo.X)); isK {
+					continue
+				}
+				if _, isK := constInt(strip(bo.Y)); isK {
+					continue
+				}
+				refs := bo.Referrers()
+				if refs == nil || len(*refs) == 0 {
+					continue
+				}
+				onlySign := true
+				for _, ref := range *refs {
+					cmp, isCmp := ref.(*ssa.BinOp)
+					if _, isDbg := ref.(*ssa.DebugRef); isDbg {
+						continue
+					}
+					if !isCmp {
+						onlySign = false
+						break
+					}
+					switch cmp.Op {
+					case token.EQL, token.NEQ, token.LSS, token.LEQ, token.GTR, token.GEQ:
+						z, isK := constInt(cmp.Y)
+						if !isK || z != 0 || cmp.X != ssa.Value(bo) {
+							onlySign = false
+						}
+					default:
+						onlySign = false
+					}
+				}
+				if !onlySign {
+					continue
+				}
+				src := c.srcAt(bo.Pos())
+				if src == "" {
+					src = valName(bo)
+				}
+				r.inst("%s: %s used only for its sign", c.short(fn), src)
+				r.oblig(false)
+				r.find(c.short(fn)+":comparison by subtraction "+src, c.instrPos(bo), "%s orders two elements by the sign of %s: the difference overflows for elements of opposite sign more than MaxInt apart and the order comes out reversed; compare the elements directly", c.short(fn), src)
+			}
+		}
+	}
+	r.inst("%d functions of %s scanned for comparisons by subtraction", n, pkgRel)
+	r.oblig(true)
 }
